@@ -18,6 +18,7 @@ import OFV.Proofs.C18Binned
 import OFV.Proofs.C18Valid
 import OFV.Proofs.C18Explicit
 import OFV.Proofs.C18Helpers
+import OFV.Proofs.C18Once
 
 namespace OFV.C18
 open OFV.Model.C18 OFV.Spec.C18 OFV.Proofs.C18
@@ -259,6 +260,61 @@ example : tpbOk [([(0, 1)], 1), ([(0, 3)], 1), ([(0, 1), (1, 2)], 1), ([(1, 3)],
       simp only [List.mem_cons, List.not_mem_nil, or_false] at h
       rcases h with rfl | rfl | rfl | rfl <;> exact OFV.Proofs.C18Tpb.one_not_small)
     (OFV.Proofs.C18Tpb.permsCover_of_full _ 4 _ _ _ (by decide) (by decide))
+
+/-- **`pair_within` schedules every unordered pair of labels EXACTLY once**, every list length: the
+`len - 1 + len % 2` yields are perfect matchings with `⌊len/2⌋` pairs each — `len (len - 1) / 2` pair slots in
+total — and every pair occurs at least once (`pair_within_spec`), so by counting no pair occurs twice. -/
+theorem pair_within_exactly_once (labels : List L) (hnd : labels.Nodup) (hnone : none ∉ labels) :
+    ∀ a ∈ labels, ∀ b ∈ labels, a ≠ b → pairCount (pairWithin labels) a b = 1 := by
+  obtain ⟨hlen, hall⟩ := pair_within_matching labels hnd hnone
+  refine OFV.Proofs.C18Once.pairWithin_once labels hnd hnone hlen ?_
+    (fun a ha b hb hab => OFV.Proofs.C18.pairWithin_covers labels hnd hnone a ha b hb hab)
+  intro p hp
+  have := List.all_eq_true.1 hall p hp
+  simp only [isMatchingOf, Bool.and_eq_true, beq_iff_eq, List.isPerm_iff] at this
+  exact ⟨this.1.1, this.1.2, this.2⟩
+
+example : pairCount (pairWithin [some 4, some 7, some 1, some 9, some 3]) (some 7) (some 3) = 1 :=
+  pair_within_exactly_once _ (by decide) (by decide) _ (by decide) _ (by decide) (by decide)
+
+/-- `_loop_iterator(func, *params)` over a generator with a non-empty, finite list `g` of yields: the `i`-th `next()`
+returns `g[i mod len g]` together with the flag "already looped" (`len g ≤ i`). -/
+theorem loop_iterator_spec (g : List (Pairing L)) (hne : g ≠ []) (i : Nat) :
+    loopNth g i = some (g[i % g.length]'(Nat.mod_lt _ (List.length_pos_iff.mpr hne)), decide (g.length ≤ i)) := by
+  unfold loopNth
+  rw [List.getElem?_eq_getElem (Nat.mod_lt _ (List.length_pos_iff.mpr hne))]
+
+/-- `_gen_pairings_between_partitions(A, B)` for two disjoint parts with at least two labels each (as
+`pair_within_simultaneously` calls it): it yields something, every yield is a perfect matching of all labels of `A`
+and `B`, and for every choice of halves `x` of `A` and `y` of `B` every pair `p, q` inside one chosen half occurs
+together with every cross pair `(r, d)` of the two complementary halves in one yield — the "three labels on one side,
+one on the other" case of the four-label statement. -/
+theorem gen_pairings_between_spec (A B : List L) (hAB : (A ++ B).Nodup) (hAn : none ∉ A) (hBn : none ∉ B)
+    (hA2 : 2 ≤ A.length) (hB2 : 2 ≤ B.length) :
+    genPairingsBetween A B ≠ []
+    ∧ (∀ g ∈ genPairingsBetween A B, wellFormed g = true ∧ (labelsOf g).Perm (A ++ B))
+    ∧ (∀ x y, x ≤ 1 → y ≤ 1 → ∀ p q r d,
+        p ∈ (halves A).getD x [] → q ∈ (halves A).getD x [] → p ≠ q →
+        r ∈ (halves A).getD (1 - x) [] → d ∈ (halves B).getD (1 - y) [] → (halves B).getD y [] ≠ [] →
+        ∃ g ∈ genPairingsBetween A B, hasPair g p q = true ∧ hasPair g r d = true)
+    ∧ (∀ x y, x ≤ 1 → y ≤ 1 → ∀ p q r d,
+        p ∈ (halves B).getD y [] → q ∈ (halves B).getD y [] → p ≠ q →
+        r ∈ (halves B).getD (1 - y) [] → d ∈ (halves A).getD (1 - x) [] → (halves A).getD x [] ≠ [] →
+        ∃ g ∈ genPairingsBetween A B, hasPair g p q = true ∧ hasPair g r d = true) := by
+  have conv : ∀ (g : Pairing L) (a b : L), OFV.Proofs.C18Pws.PairIn g a b → hasPair g a b = true := by
+    intro g a b h
+    unfold hasPair
+    rcases h with h | h
+    · simp; exact Or.inl h
+    · simp; exact Or.inr h
+  refine ⟨OFV.Proofs.C18Pws.gpb_nonempty A B hAB hAn hBn hA2 hB2,
+    fun g hg => OFV.Proofs.C18Pws.gpb_full A B hAB hAn hBn hA2 hB2 g hg, ?_, ?_⟩
+  · intro x y hx hy p q r d hp hq hpq hr hd hBy
+    obtain ⟨g, hg, h1, h2⟩ := OFV.Proofs.C18Pws.gpb_cover_left A B hAB hAn hBn x y hx hy p q r d hp hq hpq hr hd hBy
+    exact ⟨g, hg, conv g p q h1, conv g r d h2⟩
+  · intro x y hx hy p q r d hp hq hpq hr hd hAx
+    obtain ⟨g, hg, h1, h2⟩ := OFV.Proofs.C18Pws.gpb_cover_right A B hAB hAn hBn x y hx hy p q r d hp hq hpq hr hd hAx
+    exact ⟨g, hg, conv g p q h1, conv g r d h2⟩
 
 /-! ### explicit `num_iterations` -/
 
